@@ -1,6 +1,6 @@
 /-
 C01 line-protocol driver (grammar: see Proto.lean). Answer: for every operation of the history
-  <result>|<config read back>|<who holds a socket on every address>|<guest / hosts pool refs>
+  <result>|<config read back>|<who holds a socket on every address>|<guest / hosts pool refs>|<certmagic default storage>
 joined by spaces; `bad-op` for anything malformed.
 -/
 import CaddyModel.C01.Proto
@@ -9,15 +9,22 @@ namespace CaddyModel.C01
 open CaddyModel.Lifecycle CaddyModel.Lifecycle.Proto
 
 def showStep (p : Res × State) : String :=
-  showRes p.1 ++ "|" ++ (match p.2.raw with | some c => showCfg c | none => "null") ++ "|" ++ showSocks p.2.socks ++ "|" ++ showPool p.2.mpool
+  showRes p.1 ++ "|" ++ (match p.2.raw with | some c => showCfg c | none => "null") ++ "|" ++ showSocks p.2.socks ++ "|" ++ showPool p.2.mpool ++ "|" ++ toString p.2.dstor
 
 def handle (fs : List String) : String :=
   match parseCase fs with
   | none => "bad-op"
   | some ops => " ".intercalate ((trace State.init ops).map showStep)
 
-/-- counter-example lines replayed on the implementation on every run: none — every clause holds
-    at full strength (the former F2 witness is a regression case in corpus/C01) -/
-def witnessLines : List String := []
+/-- counter-example lines replayed on the implementation on every run (proved in Witness.lean,
+    `default_storage_full_fails`, finding F21 — certmagic.Default.Storage is left at a rejected or
+    merely validated configuration's storage):
+    (a) the very first load, storage module 1, is rejected while provisioning its app;
+    (b) over a running config without a storage module, a load with storage module 1 is rejected at Start;
+    (c) over the same running config, a config with storage module 2 is validated successfully. -/
+def witnessLines : List String :=
+  ["L=0~-~0,1,3,-,-~0:1=1,0,0,-,0,-",
+   "L=0~-~0,1,0,-,-=1,0,0,-,0,0 L=0~-~0,2,5,-,-~0:1=1,0,0,-,0,0",
+   "L=0~-~0,1,0,-,-=1,0,0,-,0,0 V=0~-~0,3,0,-,-~0:2=0,0,0,-,0,-"]
 
 end CaddyModel.C01
